@@ -590,6 +590,47 @@ fn check_case(c: &Case) -> Outcome {
             }
         }
     }
+    // the streaming entry points: one document gives at most one item, "after an error, the
+    // iterator ends", and the item is the reference outcome ("empty/null-like documents are
+    // skipped and produce no items", so no item at all is fine for a null-like root only)
+    let root_nullish = matches!(&c.doc.kind, Kind::Scalar { value, style: Style::Plain } if matches!(value.as_str(), "" | "~" | "null" | "Null" | "NULL"));
+    let items: Vec<Result<DV, serde_saphyr::Error>> = ds::with_ty(&c.ty, || {
+        let mut cur = std::io::Cursor::new(text.as_bytes());
+        serde_saphyr::read::<_, ds::Dyn>(&mut cur).take(4).map(|r| r.map(|d| d.0)).collect()
+    });
+    let show = |items: &[Result<DV, serde_saphyr::Error>]| {
+        items.iter().map(|r| match r { Ok(v) => format!("Ok({v:?})"), Err(e) => format!("Err({})", e.without_snippet().to_string().lines().next().unwrap_or("")) }).collect::<Vec<_>>().join(", ")
+    };
+    let stream_ok = match (&got, items.as_slice()) {
+        (_, []) => root_nullish,
+        (Ok(a), [Ok(b)]) => a == b,
+        (Err(_), [Err(_)]) => true,
+        _ => false,
+    };
+    if !stream_ok {
+        return Outcome::Fail(format!(
+            "entry point read gives the items [{}] for one document where with_deserializer_from_str gives {} (type {:?}, document {text:?})",
+            show(&items),
+            match &got { Ok(v) => format!("{v:?}"), Err(e) => format!("error: {}", e.without_snippet().to_string().lines().next().unwrap_or("")) },
+            c.ty
+        ));
+    }
+    // (from_multiple collects the same stream; it is only called once `read` is known to end)
+    let multi: Result<Vec<DV>, serde_saphyr::Error> = ds::with_ty(&c.ty, || serde_saphyr::from_multiple::<ds::Dyn>(&text).map(|v| v.into_iter().map(|d| d.0).collect()));
+    let multi_ok = match (&got, &multi) {
+        (Ok(a), Ok(v)) => (v.len() == 1 && &v[0] == a) || (v.is_empty() && root_nullish),
+        (Err(_), Err(_)) => true,
+        (Err(_), Ok(v)) => v.is_empty() && root_nullish,
+        (Ok(_), Err(_)) => false,
+    };
+    if !multi_ok {
+        return Outcome::Fail(format!(
+            "entry point from_multiple gives {} where with_deserializer_from_str gives {} (type {:?}, document {text:?})",
+            match &multi { Ok(v) => format!("{v:?}"), Err(e) => format!("error: {}", e.without_snippet().to_string().lines().next().unwrap_or("")) },
+            match &got { Ok(v) => format!("{v:?}"), Err(e) => format!("error: {}", e.without_snippet().to_string().lines().next().unwrap_or("")) },
+            c.ty
+        ));
+    }
     match (&verdict, &got) {
         (V::MustErr, Ok(v)) => Outcome::Fail(format!("shape mismatch accepted as {v:?} (type {:?}, document {text:?})", c.ty)),
         (V::MustErr, Err(_)) => Outcome::Pass,
